@@ -230,8 +230,26 @@ structure ScionCtx where
 def lastLayer (l : List Layer) : Option Layer := l.getLast?
 def secondLast (l : List Layer) : Option Layer := l.dropLast.getLast?
 
-/-- client_scion.go, loop body after a successful read with `flags == 0`. -/
-def classifySCION (cfg : Cfg) (sc : ScionCtx) (prev : Prev) (req : Req) (cTx1 cRx : Int)
+/-- Receive time the SCION client uses for a datagram: the kernel's (`cRx`), or the time in the
+    packet's E2E timestamp option (network-supplied bytes, written by a forwarder on the local
+    host) — as repaired only when that time lies inside the exchange, i.e. not before the
+    request's transmit time `cTx1` and not after the kernel receive time. -/
+def scionRxTime (d : ScionDgram) (cTx1 cRx : Int) : Int :=
+  if d.decoded.length ≥ 3 && secondLast d.decoded == some .e2e then
+    match d.tsOpt with
+    | some t => if cTx1 ≤ t ∧ t ≤ cRx then t else cRx
+    | none => cRx
+  else cRx
+
+/-- the code before the `fix:` commit for the C08 finding "timestamp option with an early
+    time": any parsable option time replaces the kernel's -/
+def scionRxTimeOld (d : ScionDgram) (_cTx1 cRx : Int) : Int :=
+  if d.decoded.length ≥ 3 && secondLast d.decoded == some .e2e then d.tsOpt.getD cRx else cRx
+
+/-- client_scion.go, loop body after a successful read with `flags == 0`; `rxTime` is
+    `scionRxTime` (current code) or `scionRxTimeOld`. -/
+def classifySCIONWith (rxTime : ScionDgram → Int → Int → Int)
+    (cfg : Cfg) (sc : ScionCtx) (prev : Prev) (req : Req) (cTx1 cRx : Int)
     (d : ScionDgram) : Step :=
   if !d.decodeOk then .skip .layers
   else if !(d.decoded.length ≥ 2 && (lastLayer d.decoded == some .udp || lastLayer d.decoded == some .scmp)) then
@@ -242,8 +260,7 @@ def classifySCION (cfg : Cfg) (sc : ScionCtx) (prev : Prev) (req : Req) (cTx1 cR
             (d.dstIA == sc.localIA && d.dstHost == sc.localHost)) then .skip .unexpected
   else
     let e2e := d.decoded.length ≥ 3 && secondLast d.decoded == some .e2e
-    let cRx' := if e2e then d.tsOpt.getD cRx else cRx
-    let next := ntpStage cfg prev req cTx1 cRx' d.payload
+    let next := ntpStage cfg prev req cTx1 (rxTime d cTx1 cRx) d.payload
     if e2e && sc.keyAvailable then
       match d.authOpt with
       | none => next
@@ -253,6 +270,9 @@ def classifySCION (cfg : Cfg) (sc : ScionCtx) (prev : Prev) (req : Req) (cTx1 cR
           if !a.macOk then .skip .auth else next
         else next
     else next
+
+def classifySCION := classifySCIONWith scionRxTime
+def classifySCIONOld := classifySCIONWith scionRxTimeOld
 
 /-- what the socket delivers to one loop iteration -/
 inductive Event (D : Type) where
